@@ -2,11 +2,11 @@
 From Mammoth Require Import Html Writer Escape WriterSpec WriterFacts.
 Local Open Scope N_scope.
 
-(* the escape table read from the source is exactly & < > " with their four entities *)
+(* the escape table read from the source is exactly the ampersand, less-than, greater-than and double-quote characters with their four entities *)
 Theorem C02_escape_table : escape_table = [(34, e_quot); (38, e_amp); (60, e_lt); (62, e_gt)].
 Proof. exact escape_table_spec. Qed.
 
-(* < > " never occur in escaped text or attribute values; every & starts one of the four entities *)
+(* less-than, greater-than and double-quote never occur in escaped text or attribute values; every & starts one of the four entities *)
 Theorem C02_no_raw_specials (s : str) (c : N) : In c (escape s) -> c <> 60 /\ c <> 62 /\ c <> 34.
 Proof. exact (escape_no_specials s c). Qed.
 Theorem C02_ampersands_are_entities (s : str) : amps_ok (escape s) = true.
